@@ -18,9 +18,9 @@ EXPLANATION = (
 
 def run(model, rep, tier):
     rep.explanation = EXPLANATION
-    n = check_against_spec(model, rep, "R1", KINDS, "IV")
-    rep.floor("R1", n, 44)
-    r2(model, rep)
+    A = rep.attempt
+    A(lambda: rep.floor("R1", check_against_spec(model, rep, "R1", KINDS, "IV"), 44))
+    A(r2, model, rep)
     sysrules.c01_wiring(model, rep)
 
 
